@@ -36,23 +36,21 @@ fn op_name(op: &Op) -> &'static str {
         Op::SetProblem(_) => "set_problem_definition",
         Op::Construct { .. } | Op::ConstructTimed { .. } => "construct_roadmap",
         Op::Solve { .. } | Op::SolveTimed { .. } => "solve",
+        Op::SetParams { .. } => "set_params",
     }
 }
 
-fn params_in_range(case: &PlanCase) -> bool {
-    (0.0..=1.0).contains(&case.goal_bias)
-        && case.step.is_finite()
-        && case.step > 0.0
-        && case.radius.is_finite()
-        && case.radius > 0.0
+fn params_in_range(p: (f64, f64, f64)) -> bool {
+    let (step, goal_bias, radius) = p;
+    (0.0..=1.0).contains(&goal_bias) && step.is_finite() && step > 0.0 && radius.is_finite() && radius > 0.0
 }
 
 pub fn c08_oracle(case: &PlanCase, trace: &Trace, ctx: &mut Ctx) {
     let pname = planner_name(case.planner);
     let cfg = &case.space;
-    let in_range = params_in_range(case);
     let mut misuse = false;
     let mut fault_reached = false;
+    let in_range = trace.steps.iter().all(|st| params_in_range(st.params));
     walk_model(case, trace, |i, m, st| {
         let fault_here = case
             .space_fail_at
@@ -76,8 +74,9 @@ pub fn c08_oracle(case: &PlanCase, trace: &Trace, ctx: &mut Ctx) {
             return;
         }
         let initialised = m.checker && m.problem.is_some();
+        let in_range = params_in_range(st.params);
         match &st.op {
-            Op::Setup(_) | Op::SetProblem(_) => {}
+            Op::Setup(_) | Op::SetProblem(_) | Op::SetParams { .. } => {}
             Op::Construct { .. } | Op::ConstructTimed { .. } => {
                 if case.planner != PlannerTag::PRM {
                     return;
@@ -236,6 +235,7 @@ fn base_case(kind: KindTag, planner: PlannerTag) -> PlanCase {
         empty_starts: false,
         query_cap: 400_000,
         world2: None,
+        space2: None,
     }
 }
 
